@@ -102,6 +102,62 @@ def fix_keys(o):
     return o
 
 
+# ---- identifiers that happen to spell a soft keyword (the grammar re-admits them as identifiers: NonTypeId), in every role a user-chosen name can have
+SOFT_ROLES = {
+    "gvar": ("int {n} = 1; int z; process P(){{ state L0, L1; init L0; trans L0 -> L1 {{ guard {n} + 1 > z; assign z = {n}; }}; }} system P;", ["E<> {n} > 0", "A[] {n} + 1 > z", "A[] ({n})", "{n} > 0 --> z > 0", "sup: {n}"]),
+    "typedef": ("typedef int[0,3] {n}; {n} v; int z; {n} f({n} q) {{ {n} l = q; return l; }} process P({n} p){{ {n} w; state L0, L1; init L0; trans L0 -> L1 {{ select s : {n}; guard v + 1 > z; }}; }} system P;", ["E<> v > 0"]),
+    "func": ("int z; int {n}(int q) {{ return q + 1; }} process P(){{ state L0, L1; init L0; trans L0 -> L1 {{ guard {n}(1) > z; }}; }} system P;", ["E<> {n}(2) > 0"]),
+    "templ": ("int z; process {n}(){{ state L0, L1; init L0; trans L0 -> L1 {{ guard z > 0; }}; }} system {n};", ["E<> {n}.L1"]),
+    "proc": ("int z; process P(){{ state L0, L1; init L0; trans L0 -> L1 {{ guard z > 0; }}; }} {n} = P(); system {n};", ["E<> {n}.L1", "A[] not {n}.L0"]),
+    "loc": ("int z; process P(){{ state {n}, L1; init {n}; trans {n} -> L1 {{ guard z > 0; }}; }} system P;", ["E<> P.{n}"]),
+    "param": ("int z; process P(const int {n}){{ state L0, L1; init L0; trans L0 -> L1 {{ guard z > {n}; }}; }} Q = P(1); system Q;", ["E<> Q.{n} > 0"]),
+    "field": ("typedef struct {{ int {n}; int o; }} S; S s; int z; process P(){{ state L0, L1; init L0; trans L0 -> L1 {{ guard s.{n} > z; assign s.{n} = 1; }}; }} system P;", ["E<> s.{n} > 0"]),
+    "local": ("int z; process P(){{ int {n} = 2; state L0, L1; init L0; trans L0 -> L1 {{ guard {n} > z; }}; }} system P;", ["E<> P.{n} > 0"]),
+    "select": ("int z; process P(){{ state L0, L1; init L0; trans L0 -> L1 {{ select {n} : int[0,2]; guard {n} > z; }}; }} system P;", ["E<> z > 0"]),
+    "chan": ("chan {n}; int z; process P(){{ state L0, L1; init L0; trans L0 -> L1 {{ sync {n}!; }}, L1 -> L0 {{ sync {n}?; }}; }} system P;", ["E<> P.L1"]),
+    "binder": ("int z; int arr[3]; process P(){{ state L0, L1; init L0; trans L0 -> L1 {{ guard forall ({n} : int[0,2]) arr[{n}] >= z; }}; }} system P;", ["E<> forall ({n} : int[0,2]) arr[{n}] > 0", "E<> sum ({n} : int[0,2]) arr[{n}] > 0"]),
+}
+
+
+def soft_part(c):
+    """every token the extracted grammar re-admits as an identifier (NonTypeId), spelled as the scanner spells it, as a user-chosen name in every role; the verdict on
+    the model and on queries over it must be the one for a fresh name"""
+    gen = os.path.join(vf.lib_dir("plain"), "gen")
+    lr = json.load(open(os.path.join(gen, "lr_tables.json")))
+    lx = json.load(open(os.path.join(gen, "lexemes.json")))
+    toks = sorted({r["rhs"][0] for r in lr["rules"] if r["lhs"] == "NonTypeId" and len(r["rhs"]) == 1} - {"T_ID"})
+    soft = sorted({x for tk in toks for x in lx["lit"].get(tk, [])} | {w for w, k in lx["kw"].items() if k["tok"] in toks})
+    if len(soft) < 5:
+        raise vf.MachineryError("no soft keywords found in the extracted grammar / scanner tables: %s" % toks)
+    jobs = []
+    for n in soft:
+        for role, (txt, qs) in SOFT_ROLES.items():
+            for nm in (n, "rn_" + n):
+                jobs.append({"id": "%s|%s|%s" % (n, role, nm), "entry": "xta", "text": txt.format(n=nm), "queries": [q.format(n=nm) for q in qs], "query_builder": "tiga", "clear_errors": True, "structure": False})
+    res = vf.run_jobs(jobs, c.run_dir, variant="plain", name="soft")
+
+    def verdict_of(r, nm, n):
+        ren = lambda s: re.sub(r"(?<![A-Za-z0-9_])%s(?![A-Za-z0-9_])" % re.escape(nm), n, s)
+        d = r.get("dump", {}).get("doc", {}) if r.get("dump", {}).get("outcome") == "return" else {}
+        return {"main": {k: r.get("main", {}).get(k) for k in ("outcome", "ret", "exc")}, "errors": sorted(ren(e["msg"]) for e in d.get("errors", [])),
+                "queries": [{"ret": q.get("ret"), "errors": sorted(ren(e["msg"]) for e in q.get("errors", [])), "props": [ren(p["s"]) for p in q.get("props", [])]} for q in r.get("queries", [])]}
+    ncmp = 0
+    for n in soft:
+        for role in SOFT_ROLES:
+            a = verdict_of(res["%s|%s|%s" % (n, role, n)], n, n)
+            b = verdict_of(res["%s|%s|rn_%s" % (n, role, n)], "rn_" + n, n)
+            ncmp += 1
+            d = docgen.diff(b, a)
+            if d:
+                c.finding("c09:rename:soft-keyword:%s:%s" % (role, docgen.diff_class(d[0])),
+                          "a model that names a %s `%s` gets a different verdict than the same model with the fresh name rn_%s, at %s: fresh name %s, `%s` %s" % (
+                              role, n, n, d[0][0], json.dumps(d[0][1])[:150], n, json.dumps(d[0][2])[:150]),
+                          {"family": "soft", "name": n, "role": role, "text": SOFT_ROLES[role][0].format(n=n), "queries": [q.format(n=n) for q in SOFT_ROLES[role][1]], "differences": d})
+    c.cov["soft_keyword_names"] = soft
+    c.cov["soft_keyword_cases"] = ncmp
+    return ncmp
+
+
 def run(tier):
     c = vf.Check("C09", tier)
     quick = tier == "quick"
@@ -142,7 +198,7 @@ def run(tier):
         c.finding("c09:grammar:alias-twin:%s" % m["lhs"], "the production %s -> %s spells an operator at position %d and has no twin production with the other spelling and the same action: the two spellings are not interchangeable there" % (
             m["lhs"], " ".join(m["rhs"]), m["at"]), {"entry": "AliasRules", "production": m})
     # ---- the scanner: what is inside a comment, and which separator stands between two lexemes, does not matter (Lex.tla on the extracted rules; the real scanner through the hook)
-    n_scan = lexconf.run(c, quick, "C09")
+    n_scan = lexconf.run(c, quick, "C09") + soft_part(c)
     # ---- metamorphic replay
     models = docgen.generate(c, ["labels", "mixed"], 700 if quick else 5000, c.seed, bfs=False)
     cand = [e["m"] for e in models if faults.blocks(e["m"])]
